@@ -26,6 +26,7 @@ RULE = (
     "between creation and comparison. Non-trivial = >=1 rejected truncation, >=1 "
     "minimal-length acceptance, divergence at >=3 distinct depths. Distinct = canonical "
     "JSON."
+    ' Added after the seeded rounds: the proof is not read after every update (drawn per update), bit-complement keys, empty-subtree-like values, and a fixed case that uses the proof with only 100 frames of stack left.'
 )
 LEVEL_TEXT = (
     "Exploration by stateful property testing of the proof object against the reference "
